@@ -274,7 +274,7 @@ def eval_case(ctx, case):
         eval_chunks(ctx, case, one, [case["chunks"]])
 
 
-MUTATIONS = ["line:delete-field", "line:nonint-priority", "line:no-colon-type", "line:empty", "line:long-name", "line:only-spaces", "header:version3", "header:garbage", "header:no-zlib", "header:truncated", "body:truncated-zlib", "header:trailing-space", "header:crlf", "header:version-with-trailing-text", "header:format-line-joined", "header:v1-format-line-joined", "header:v1-version-with-trailing-text"]
+MUTATIONS = ["line:two-consecutive-no-colon-type", "line:delete-field", "line:nonint-priority", "line:no-colon-type", "line:empty", "line:long-name", "line:only-spaces", "header:version3", "header:garbage", "header:no-zlib", "header:truncated", "body:truncated-zlib", "header:trailing-space", "header:crlf", "header:version-with-trailing-text", "header:format-line-joined", "header:v1-format-line-joined", "header:v1-version-with-trailing-text"]
 
 
 def mutate(R, project, version, rows, which):
@@ -282,6 +282,15 @@ def mutate(R, project, version, rows, which):
     head = V2_HEAD.format(p=project, v=version)
     idx = R.randrange(len(lines)) if lines else 0
     clean_lines = None
+    if which == "line:two-consecutive-no-colon-type":
+        # two malformed lines with the SAME colon-less type directly after a valid entry: both are skipped, nothing else changes
+        while len(rows) < 1:
+            rows = rows + [("only", "py:function", "1", "o.html", "-")]
+        lines = v2_lines(rows)
+        k = R.randrange(len(lines)) + 1
+        n0 = rows[k - 1][0]
+        bad = [f"{n0} label 1 elsewhere.html#{n0} Hijacked", f"other{n0} label 1 e2.html -"]
+        return head.encode() + zlib.compress(("\n".join(lines[:k] + bad + lines[k:]) + "\n").encode()), lines
     if which.startswith("line:"):
         if not lines:
             lines = ["only py:function 1 o.html -"]
